@@ -25,7 +25,7 @@ for sid in sorted(os.listdir(sd)):
     n += 1
     det += d.get("status") == "DETECTED"
     first_det += m.get("first_quick_result") == "DETECTED"
-    seed.append(f"| {sid} | {m['needs_to_manifest']} | {m.get('first_quick_result', '-')} | {d.get('status', 'not run')} | {sigs} | {m.get('extension', '')} |")
+    seed.append(f"| {sid} | {m['needs_to_manifest']} | {m.get('first_quick_result', '-')} | {d.get('status', 'not run')} | {sigs} | {m.get("extension", "")} {m.get("note", "")} |")
 seed.append("")
 seed.append(f"Totals: {n} confirmed seeds; {first_det} caught by the quick tier as first built; {det} caught now.")
 s = open(os.path.join(ROOT, "DESIGN.md")).read()
